@@ -427,7 +427,7 @@ def check_weights(obs, ref, mech):
 # MANIFEST-BEGIN
 MANIFEST = {
     'technique': 'value-table oracle (reference model) on the arguments/initial state/derivatives returned after generated override sequences + structural fingerprints of shared template objects + sibling-circuit check',
-    'level_text': 'Random sequences of node-template variations, update_var (scalars, per-node arrays, wildcards, hierarchy), node_values and edge-attribute updates are applied to circuits whose nodes share template objects; the returned argument values, initial state, derivatives at probe points and the first row of run must equal the reference value table (only addressed variables change), a second circuit built from the same template objects before the updates must still be the base model, and fingerprints of the shared OperatorTemplate/NodeTemplate objects must be unchanged. Override values include 0.0, negative numbers and small integers; constants may be declared with an integer default. Edges may be added in place (update_template(in_place=True), add_edges_from_matrix) before edge updates; the template may have been compiled once before the overrides arrive (constants: main sweep; initial values: probe family of a recorded finding); update_var on PopulationTemplate nodes (scalar and per-unit values) is compared unit by unit with the explicit network. Held on observed sequences only.',
+    'level_text': 'Random sequences of node-template variations, update_var (scalars, per-node arrays, wildcards, hierarchy), node_values and edge-attribute updates are applied to circuits whose nodes share template objects; the returned argument values, initial state, derivatives at probe points and the first row of run must equal the reference value table (only addressed variables change), a second circuit built from the same template objects before the updates must still be the base model, and fingerprints of the shared OperatorTemplate/NodeTemplate objects must be unchanged. Override values include 0.0, negative numbers and small integers; constants may be declared with an integer default. Edges may be added in place (update_template(in_place=True), add_edges_from_matrix) before edge updates; the template may have been compiled once before the overrides arrive (constants: main sweep; initial values: probe family of a recorded finding); update_var on PopulationTemplate nodes (scalar and per-unit values) is compared unit by unit with the explicit network. Edge updates address only (source, target) pairs with a single edge and sometimes set the unit gains +1.0 / -1.0. Held on observed sequences only.',
     'level_note': 'Trusted: vp/ref.py addressing semantics (documented precedence), vp/tplfp.py fingerprints. Edge updates only for edges defined at the top level (get_edge addresses the defining circuit).',
 }
 # MANIFEST-END
